@@ -274,6 +274,9 @@ func (x *Exec) loadPtr(st *State, p Val) Val {
 	if l := x.ptrLoc(p); l != nil {
 		v := x.load(st, l)
 		x.assumeRange(v)
+		if len(v.S) < 300 {
+			x.assumeAllocated(v) // a value read now refers only to objects that exist now
+		}
 		return v
 	}
 	// struct through heap ref: assemble from field arrays
